@@ -15,7 +15,8 @@ TRANSFORMS = [
     ["transform.mirror", ["xy"]], ["transform.mirror", ["zx"]], ["transform.set_pivot", [[1.0, 1.0, 0.0]]],
     ["transform.set_pivot", [[0.5, -1.0, 2.0]]], ["transform.save_state", ["n"]], ["transform.restore_state", ["n"]],
     ["transform.save_state", []], ["transform.restore_state", []],
-    ["transform.chain_transform", [["ref", "shear"]]],       # a caller-owned matrix through the public chain_transform(), the same ndarray every time
+    ["transform.chain_transform", [["ref", "shear"]]],
+    ["transform.translate", [0.0, 0.0, 2.5]], ["transform.translate", [0.0, -1.5, 0.0]],      # translations along one axis only       # a caller-owned matrix through the public chain_transform(), the same ndarray every time
 ]
 SYNC = ["move", [], {"x": 1.0, "y": 2.0, "z": 3.0}]
 MOTIONS = [
